@@ -8,7 +8,7 @@ names *in the harness process only*.
 import io
 from textwrap import dedent
 
-from sim.core import ensure_repo, SimFile, OutOfScope, HarnessError, StepBudgetExceeded
+from sim.core import ensure_repo, SimFile, OutOfScope, HarnessError, StepBudgetExceeded, check_seam_gap
 
 ensure_repo()
 
@@ -323,6 +323,7 @@ def run_validator(data, tap=False):
         except StepBudgetExceeded as e:
             res.verdict, res.exc = "hang", e
         except Exception as e:  # noqa: BLE001
+            check_seam_gap(e)
             res.verdict, res.exc = "crash", e
     finally:
         TAP.active = False
@@ -381,6 +382,7 @@ def run_deserialiser(data, reread=False):
     except StepBudgetExceeded as e:
         res.verdict, res.exc = "hang", e
     except Exception as e:  # noqa: BLE001
+        check_seam_gap(e)
         res.verdict, res.exc = "fail", e
     res.reads = f.reads
     res.headers = list(DESER_HEADERS)
@@ -402,6 +404,7 @@ def run_serialiser(context):
     except OutOfScope:
         raise
     except Exception as e:  # noqa: BLE001
+        check_seam_gap(e)
         return None, e
     return g.getvalue(), None
 
